@@ -1,4 +1,5 @@
 use crate::common::Ctx;
+pub mod c19;
 pub mod c01;
 pub mod c02;
 pub mod c03;
@@ -15,6 +16,7 @@ pub fn dispatch(ctx: &mut Ctx) -> bool {
         "C04" => c04::run(ctx),
         "C11" => c11::run(ctx),
         "C17" => c17::run(ctx),
+        "C19" => c19::run(ctx),
         _ => return false,
     }
     true
